@@ -64,5 +64,10 @@ REGISTRY = {
                     "from final homes; TLC checks closure and import resolution for all 866 scenarios and emits them; they are packed, run with naming conversion off and on (plus foreign and generic foreign "
                     "classes), and C11_Trace resolves every type/superclass reference and every import of every stub file against the declarations of all stub files of the run.",
             "ref": "DESIGN.md section 7 C11", "note": BASE_NOTE + " 20 known-finding signatures (alias re-exports, module re-exports, moved class used in its own module).", "technique": TECH},
+    "C16": {"text": "spec/RunHistory.tla models histories of generations (same generator object / fresh generator) over an API model and TLC checks purity and idempotence of the promised design for "
+                    "every history of 3 operations x 6 feature packages (Literal|None, *args tuples, alias re-exports, foreign classes, a method inherited by two subclasses, all together); every history is "
+                    "replayed on a freshly analysed real API object in its own process (API.to_dict() digests around every generation, text digests per generation, renderings of the shared inherited member), and "
+                    "CLI re-runs into a populated and an empty output directory are compared; C16_Trace judges Pure, Idem, SameEverywhere and Rerun.",
+            "ref": "DESIGN.md section 7 C16", "note": BASE_NOTE, "technique": TECH},
 }
 NOT_APPLICABLE = {}
